@@ -383,7 +383,8 @@ inductive ExprClass where
 deriving Repr, BEq, DecidableEq, Inhabited
 
 structure DefaultArgs where
-  /-- `none`: no unnamed argument at all (`#[default(bound(..))]`) -/
+  /-- `none`: no argument at all (`#[default()]`).  The first argument is always the value, also when it is spelled like a
+  named one: `#[default(bound(T))]` has the value `bound(T)` (found by L1c; the serialiser follows the implementation) -/
   value : Option (Toks × ExprClass) := none
   bound : Option (List BoundArg) := none
 deriving Inhabited
